@@ -31,6 +31,10 @@ type Document struct {
 	parts map[string][]byte
 	// 图片ID计数器，确保每个图片都有唯一的ID
 	nextImageID int
+	// 本文档的脚注/尾注管理器（按需创建；每个文档各自独立）
+	footnoteManager *FootnoteManager
+	// 本文档的编号管理器（按需创建；每个文档各自独立）
+	numberingManager *NumberingManager
 }
 
 // Body 表示文档主体
